@@ -107,6 +107,7 @@ def run(ctx):
     rc, out = vlib.sh([vlib.GOBIN, "test", "-tags", "verif", "-overlay", ov, "-vet=off", "-count=1", "-run", "^TestVerifC19",
                        "-timeout", "570s", "./actor/", "./internal/cluster/"], cwd=vlib.REPO, env=env, timeout=600)
     rc_c, out_c = rc, out
+    ctx.log("go harness done rc=%d" % rc)
     book_outs = read_jsonl(os.path.join(work, "c19_book_out.jsonl"))
     live_outs = read_jsonl(os.path.join(work, "c19_live_out.jsonl"))
     claim_outs = read_jsonl(os.path.join(work, "c19_claim_out.jsonl"))
@@ -281,6 +282,7 @@ def run(ctx):
         elif any((not p["NX"]) or (not p["HasEX"]) or p["EXNs"] != r["TTLNs"] or ("schedule-fire" not in p["Key"]) for p in puts):
             viol("ClaimScheduleFire:put-options", "ClaimScheduleFire wrote %s (needs NX, EX = ttl %d ns, the schedule-fire namespace)" % (puts[:2], r["TTLNs"]), r)
 
+    ctx.log("oracles done")
     # ---- model vs implementation
     coq_stats = None
     if coq_book or coq_claims:
@@ -339,6 +341,7 @@ Eval vm_compute in summary.
             if coq_stats["claim_mismatches"]:
                 ctx.tie_broken("model C19/Model.v claim_once vs claimClusterFire", coq_stats)
 
+    ctx.log("model evaluation done")
     # ---- the theorems
     if not ctx.coq_property():
         if not any(f.kind == "violation" for f in ctx.findings):
@@ -360,7 +363,7 @@ Eval vm_compute in summary.
 
 
 META = {
-    "ready": False,
+    "ready": True,
     "category": "proof",
     "technique": "Rocq inductive invariants over all operation orders of the scheduler model and over all interleavings of any number of claiming nodes + differential validation against the real scheduler and claim code",
     "text": "The scheduler's reference bookkeeping over the go-quartz contract, and the cluster tick claim (put-if-absent keyed by reference and run time), are modelled with a logical clock. Proved for every operation order: deliveries only from firings at or after their run time (one-shot: schedule time + delay), a one-shot fires at most once, nothing fires after CancelSchedule returned or while paused, unknown/cancelled references report not-found; for every interleaving of any number of nodes: at most one winner and delivery per tick, exactly one if any attempted. Every run replays generated sequences on the real scheduler and claim code and compares with the Coq model.",
